@@ -44,6 +44,15 @@ def schedules(tier):
         out.append({"name": "C%d" % k, "strays": fast, "reply": 0.75, "expect": "value"})
     # histories on ONE session: a request that fails (timeout after a stray, or a decode error) must not
     # change how long the next request waits
+    # strays arriving in the last milliseconds before the deadline, then silence (a release datagram at 2.5 T ends a
+    # call that would otherwise block for good)
+    out.append({"name": "E-edge", "strays": [round(1.0 - 0.0005 * i / 0.3, 5) for i in range(12, 0, -1)] + [2.5], "reply": None, "expect": "timeout"})
+    # a rate-limited session: the second request is held back by the limiter for 0.8 T; its reply, 0.5 T after it
+    # was sent, is well inside the timeout and must be delivered
+    out.append({"name": "P-policed", "policed": True, "seq": [
+        {"name": "P1", "strays": [], "reply": 0.05, "expect": "value"},
+        {"name": "P2", "strays": [], "reply": 0.5, "expect": "value"},
+        {"name": "P3", "strays": [0.2], "reply": 0.6, "expect": "value"}]})
     out.append({"name": "H-timeout-then-late-reply", "seq": [
         {"name": "H1a", "strays": [0.6], "reply": None, "expect": "timeout"},
         {"name": "H1b", "strays": [], "reply": 0.75, "expect": "value"},
@@ -112,9 +121,10 @@ def worker(job):
     res = {"cases": 0, "bad": [], "inconclusive": [], "durations": [], "classes": {}}
     agent = rigp.Agent(None, users=[cfg.user_keys()]).start()
 
-    def mk():
+    def mk(policed=False):
         agent.handler = lambda a, r: a.discovery_or(r, lambda q: a.reply(q, []))
-        d = driver.Driver(cfg, agent, timeout=T).create()
+        kw = {"limit_rps": 1.0 / (0.8 * T)} if policed else {}
+        d = driver.Driver(cfg, agent, timeout=T, **kw).create()
         d.call("open")
         return d
     drv = mk()
@@ -122,11 +132,17 @@ def worker(job):
     flat = []
     for sch in job["schedules"]:
         if "seq" in sch:
-            flat += [dict(p, keep_session=True, history=sch["name"]) for p in sch["seq"]]
+            flat += [dict(p, keep_session=True, history=sch["name"], policed=sch.get("policed", False)) for p in sch["seq"]]
         else:
             flat.append(sch)
+    cur_hist = None
     for sch in flat:
         prog.mark({"cfg": cfg.key(), "schedule": sch["name"]})
+        if sch.get("history") != cur_hist:
+            cur_hist = sch.get("history")
+            if sch.get("policed") or cur_hist is not None:
+                drv.close()
+                drv = mk(sch.get("policed", False))
         serial += 1
         out, dur, drift, rel = run_case(cfg, agent, drv, sch, serial)
         res["cases"] += 1
@@ -144,7 +160,7 @@ def worker(job):
             for _ in range(3):
                 time.sleep(T * 2)
                 drv.close()
-                drv = mk()
+                drv = mk(sch.get("policed", False))
                 if sch.get("keep_session"):
                     # replay the whole history up to this step on the fresh session
                     for prev in flat:
@@ -192,7 +208,6 @@ def main():
         cfgs = [c for c in cfgs if c.version != "v1"]
     sch = schedules(a.tier)
     jobs = [{"seed": a.seed, "cfg": c.to_json(), "schedules": sch} for c in cfgs]
-    chk.sample({"schedule": "A3", "arrivals": "non-matching at 0.18 s, 0.36 s, 0.54 s", "required": "TimeoutError by 0.3 s + 0.25 s slack"})
     outs = runner.run_workers("checks.c18", "worker", jobs, variant="rel", timeout=3000, nproc=3)
     tot = 0
     durs = {}
@@ -213,6 +228,8 @@ def main():
         for c in res["classes"]:
             chk.distinct.add("%s|%s" % (cfgkey, c))
         durs[cfgkey] = res["durations"]
+        if res["durations"]:
+            chk.sample({"cfg": cfgkey, "timeout_s": T, "observed_call_durations_s": res["durations"][:8]}, limit=4)
         for b in res["bad"]:
             chk.violation(b["sig"], b["msg"], b)
     chk.seen(tot)
